@@ -48,6 +48,8 @@ def oracle(case, out):
             w = (int(op[1]), int(op[2]) & 0xFFFF)
         elif spec and spec.startswith('W:'):
             w = (int(spec.split(':')[1]), int(spec.split(':')[2]) & 0xFFFF)
+        elif spec and spec.startswith('B:'):
+            w = (int(spec.split(':')[1]), (prev[int(spec.split(':')[1])] | int(spec.split(':')[2])) & 0xFFFF)
         if w and w[0] in (6, 9):
             ev_i = 4 if w[0] == 6 else 7
             want = prev[ev_i] | (~prev[w[0]] & w[1] & 0xFFFF)
@@ -57,7 +59,7 @@ def oracle(case, out):
         clears = {2: False, 4: False, 7: False}
         if op[0] == 'L' or spec == 'L':
             clears = {2: True, 4: True, 7: True}
-        if w and w[0] in clears:
+        if w and w[0] in clears and not (spec and spec.startswith('B:')):
             clears[w[0]] = True
         for i in (2, 4, 7):
             if not clears[i] and (prev[i] & ~regs[i]):
